@@ -552,3 +552,1319 @@ def parser_of(sh):
     if sh[0] == "tally":
         return "tally_seg" if sh[1] else "tally"
     return PARSER[sh[0]]
+
+
+# =============================================================================== part 2: the generator
+from collections import Counter
+
+LETTER_PARTICLES = list("npequvfhlxyogzkbcwdtsa")
+SYMBOL_PARTICLES = list("|+-!<>/%^_~@*?#")
+ALL_PARTICLES = LETTER_PARTICLES + SYMBOL_PARTICLES            # the 37 designators of G_core's `pl`
+COMMON_PARTICLES = list("npehdtsa") + ["|"]
+
+SURF_COUNTS = {
+    "p": [4, 9], "px": [1], "py": [1], "pz": [1], "so": [1], "s": [4], "sx": [2], "sy": [2], "sz": [2],
+    "c/x": [3], "c/y": [3], "c/z": [3], "cx": [1], "cy": [1], "cz": [1],
+    "k/x": [4, 5], "k/y": [4, 5], "k/z": [4, 5], "kx": [2, 3], "ky": [2, 3], "kz": [2, 3],
+    "sq": [10], "gq": [10], "tx": [6], "ty": [6], "tz": [6], "x": [2, 4, 6], "y": [2, 4, 6], "z": [2, 4, 6],
+    "box": [9, 12], "rpp": [6], "sph": [4], "rcc": [7], "rhp": [9, 15], "hex": [9, 15], "rec": [10, 12],
+    "trc": [8], "ell": [7], "wed": [12], "arb": [30],
+}
+CONE_SHEET = {"k/x": 5, "k/y": 5, "k/z": 5, "kx": 3, "ky": 3, "kz": 3}
+MAT_LIB_KEYS = ["nlib", "plib", "pnlib", "elib", "hlib", "alib", "slib", "tlib", "dlib"]
+MAT_NUM_KEYS = ["gas", "estep", "hstep", "cond", "refi", "refc", "refs"]
+LIB_SUFFIX = {"nlib": "c", "plib": "p", "pnlib": "u", "elib": "e", "hlib": "h", "alib": "a", "slib": "s", "tlib": "t", "dlib": "o"}
+SDEF_KEYS = ["cel", "sur", "erg", "tme", "dir", "vec", "nrm", "pos", "rad", "ext", "axs", "x", "y", "z", "ccc", "ara",
+             "wgt", "tr", "eff", "par", "dat", "loc", "bem", "bap"]
+SDEF_VECTOR = {"vec": 3, "pos": 3, "axs": 3, "dat": 3}
+NUM_CARDS = ["e", "t", "c", "sd", "de", "df", "em", "tm", "cm"]
+DIST_CARDS = ["si", "sp", "sb", "ds"]
+DIST_OPTIONS = ["h", "l", "a", "s", "d", "c", "v"]
+# generic number/keyword cards: name -> (takes a number?, takes particles?, keyword parameters)
+GENERIC = {
+    "nps": (0, 0, []), "ctme": (0, 0, []), "print": (0, 0, []), "prdmp": (0, 0, []), "phys": (0, 1, []),
+    "cut": (0, 1, []), "void": (0, 0, []), "dbcn": (0, 0, []), "lost": (0, 0, []), "totnu": (0, 0, []),
+    "nonu": (0, 0, []), "area": (0, 0, []), "tmp": (1, 0, []), "thtme": (0, 0, []),
+    "rand": (0, 0, ["gen", "seed", "stride", "hist"]), "esplt": (0, 1, []), "wwe": (0, 1, []), "wwn": (1, 1, []),
+    "wwp": (0, 1, []), "mesh": (0, 0, ["ref", "origin", "imesh", "iints"]), "fmesh": (1, 1, ["origin", "imesh", "iints", "emesh"]),
+    "burn": (0, 0, ["time", "power", "pfrac"]), "act": (0, 0, ["dnbias", "thresh"]), "awtab": (0, 0, []),
+}
+GENERIC_WORDS = {"mesh": [("geom", ["xyz", "cyl"])], "fmesh": [("geom", ["xyz", "rzt"]), ("out", ["col", "ij"])],
+                 "act": [("fission", ["all", "none"])]}
+ELEMENTS = [(1, [1, 2, 3]), (2, [4]), (5, [10, 11]), (6, [12, 0]), (8, [16, 17]), (13, [27]), (26, [54, 56]), (40, [90, 91]),
+            (82, [206, 208]), (92, [235, 238]), (94, [239])]
+LAWS = ["lwtr.20t", "grph.10t", "h-h2o.40t", "poly.60t", "be/o.10t", "u/o2.30t", "hwtr.01t", "benz.10t"]
+WORDS = ["fuel", "clad", "water", "region", "outer", "shell", "of", "the", "pin", "x", "7", "a1", "unit"]
+
+
+def digits(rng, n, first_nonzero=False):
+    s = "".join(rng.choice("0123456789") for _ in range(n))
+    if first_nonzero and s and s[0] == "0":
+        s = rng.choice("123456789") + s[1:]
+    return s
+
+
+class Gen:
+    """One instance per problem.  Shapes are built in reading order and `self.col` follows the rendered text so
+    that lines stay short (a break is forced at the next padding position once the line is longer than `soft`)."""
+
+    def __init__(self, rng, wild=0.0, soft=52):
+        self.rng = rng
+        self.col = 0
+        self.soft = soft
+        self.cov = Counter()       # production-alternative coverage of section 5.2 / 5.3
+        self.tags = set()          # features of the sentence being built (used to attribute known findings)
+        self.wild = wild           # probability scale of the rarely used alternatives
+
+    # ---- bookkeeping
+    def hit(self, name):
+        self.cov[name] += 1
+
+    def emit(self, ts):
+        for _, t in ts:
+            i = t.rfind("\n")
+            self.col = self.col + len(t) if i < 0 else len(t) - i - 1
+
+    def rare(self, p):
+        return self.rng.random() < p
+
+    # ---- numbers
+    def real(self, kind="REAL", nonzero=False, small=False):
+        """kind: INT NAT SINT UREAL REAL POS (a positive real).  Returns the node; emits nothing."""
+        r = self.rng
+        if kind in ("INT", "NAT", "SINT"):
+            n = r.choice([1, 1, 1, 2, 2, 3]) if small else r.choice([1, 1, 2, 2, 3, 4, 5, 8])
+            i = digits(r, n, first_nonzero=True)
+            if kind != "INT" and not nonzero and r.random() < 0.08:
+                i = "0"
+            s = "n"
+            if kind == "SINT":
+                s = r.choice(["n", "n", "m", "m", "p"])
+                self.hit("SINT:" + {"n": "plain", "m": "-", "p": "+"}[s])
+            return ["r", s, i, None, None]
+        form = r.choice(["int", "fixed", "fixed", "dot", "lead", "sci", "sci", "fortran"])
+        self.hit("REAL:" + form)
+        ni = r.choice([1, 1, 2, 3, 4])
+        i = digits(r, ni)
+        if r.random() < 0.85:
+            i = digits(r, ni, first_nonzero=True)
+        else:
+            self.hit("REAL:leading-zero")
+        fr = None
+        ex = None
+        if form in ("fixed", "sci", "fortran"):
+            fr = digits(r, r.choice([1, 2, 3, 5]))
+        elif form == "dot":
+            fr = ""
+        elif form == "lead":
+            i, fr = "", digits(r, r.choice([1, 2, 4]))
+        if form in ("sci", "fortran"):
+            mk = r.choice(["e", "E"]) if form == "sci" else "f"
+            es = r.choice(["n", "p", "m"]) if form == "sci" else r.choice(["p", "m"])
+            ed = digits(r, r.choice([1, 1, 2, 2]))
+            if r.random() < 0.05:
+                ed = r.choice(["0", "1", "2"]) + digits(r, 2)
+                self.hit("REAL:exp-3-digits")
+            if r.random() < 0.25:
+                fr = r.choice([None, ""]) if mk != "f" or True else fr
+            ex = [mk, es, ed]
+            self.hit("REAL:exp-" + mk + {"n": "", "p": "+", "m": "-"}[es])
+            if mk == "f" and fr == "":
+                self.tags.add("real:fortran-after-dot")
+        s = "n"
+        if kind == "REAL":
+            s = r.choice(["n", "n", "m", "m", "p"])
+            self.hit("REAL:sign" + {"n": "none", "m": "-", "p": "+"}[s])
+        node = ["r", s, i, fr, ex]
+        if (nonzero or kind == "POS") and real_zero(node):
+            node[2] = (i or "") + r.choice("123456789")
+        if not node[2] and not node[3]:
+            node[2] = "1"
+        return node
+
+    def simple(self, text):
+        """a plain unsigned integer/fixed literal"""
+        if "." in text:
+            a, b = text.split(".")
+            return ["r", "n", a, b, None]
+        s = "n"
+        if text[0] in "+-":
+            s, text = ("p" if text[0] == "+" else "m"), text[1:]
+        return ["r", s, text, None, None]
+
+    # ---- padding
+    def text(self, n=3):
+        return " " + " ".join(self.rng.choice(WORDS) for _ in range(self.rng.randint(0, n)))
+
+    def clines(self):
+        out = []
+        for _ in range(self.rng.choice([1, 1, 2, 3])):
+            ind = self.rng.choice([0, 0, 0, 1, 3, 4])
+            if self.rng.random() < 0.2:
+                out.append([ind, None])
+                self.hit("L:comment-line-bare-c")
+            else:
+                out.append([ind, self.text(4).strip()])
+                self.hit("L:comment-line" + ("-indented" if ind else ""))
+        return out
+
+    def pad(self, final=False, allow_break=True):
+        """mandatory padding between two tokens (or after the last one when final)"""
+        r = self.rng
+        x = r.random()
+        force = self.col > self.soft and allow_break and not final
+        if final:
+            if x < 0.6:
+                p = ["sp", r.choice([0, 0, 1, 3])]
+                self.hit("L:trailing-blanks")
+            else:
+                p = ["de", r.choice([0, 0, 2]), self.text()]
+                self.hit("L:dollar-at-end")
+        elif not allow_break or (x < 0.74 and not force):
+            if x < 0.05 * (1 + 4 * self.wild) and allow_break is not None:
+                p = ["tab", r.choice([0, 0, 1])]
+                self.hit("L:tab")
+            else:
+                p = ["sp", r.choice([0, 0, 0, 0, 1, 2, 5])]
+                self.hit("L:blanks")
+        else:
+            y = r.random()
+            if y < 0.35:
+                p = ["br", r.choice([0, 0, 1]), r.choice([0, 0, 1, 4])]
+                self.hit("L:newline+5")
+            elif y < 0.55:
+                p = ["dl", r.choice([0, 1]), self.text(), r.choice([0, 0, 2])]
+                self.hit("L:dollar+newline")
+            elif y < 0.8:
+                p = ["cm", r.choice([0, 0, 1]), self.clines(), r.choice([0, 0, 3])]
+            else:
+                p = ["am", r.choice([0, 0, 1]), r.choice([0, 1, 4, 5, 7])]
+                self.hit("L:ampersand" + ("-lt5" if p[2] < 5 else "-ge5"))
+        self.emit(pad_toks(p))
+        return p
+
+    def opad(self, prob=0.3, final=False):
+        if self.col > self.soft and not final:
+            return self.pad()
+        if self.rng.random() < prob:
+            return self.pad(final=final)
+        return None
+
+    def lead(self, max_blank=4):
+        r = self.rng
+        x = r.random()
+        self.col = 0
+        if x < 0.75:
+            return None
+        if x < 0.88:
+            p = ["sp", r.randint(0, max_blank - 1)]
+            self.hit("L:lead-blanks")
+        else:
+            p = ["ld", self.clines(), r.choice([0, 0, 0, 2, max_blank])]
+            self.hit("L:lead-comment-lines")
+        self.emit(pad_toks(p))
+        return p
+
+    def sep(self, eq_only=False):
+        r = self.rng
+        x = r.random()
+        if x < 0.6 or (eq_only and x < 0.8):
+            self.emit([("=", "=")])
+            self.hit("EQ:=")
+            return ["sepeq", None, None]
+        if x < 0.8 and not eq_only:
+            self.hit("EQ:blank")
+            return ["seppad", self.pad(allow_break=False)]
+        pl = self.pad(allow_break=False) if r.random() < 0.7 else None
+        self.emit([("=", "=")])
+        pr = self.pad(allow_break=False) if r.random() < 0.7 or pl is None else None
+        self.hit("EQ:blank=blank")
+        return ["sepeq", pl, pr]
+
+    # ---- particles
+    def particle(self, where):
+        r = self.rng
+        if r.random() < 0.88:
+            p = r.choice(COMMON_PARTICLES if r.random() < 0.8 else list("qvfhlogkbcw") + list("|<>%*?"))
+        else:
+            p = r.choice(ALL_PARTICLES)
+        self.hit("pl:" + p)
+        if p in "uxyz":
+            self.tags.add("particle-keyword:" + p)
+        special = p in SYMBOL_PARTICLES
+        if special and (where == "cell" or p in "+-!/^_~@#"):
+            self.tags.add("particle-symbol:%s@%s" % (p, where))
+        return special, p
+
+    def plist(self, where, n=None):
+        n = n or self.rng.choice([1, 1, 1, 2, 3])
+        out = []
+        for _ in range(n):
+            s, p = self.particle(where)
+            if p not in [q for _, q in out]:
+                out.append((s, p))
+        self.hit("plist:%d" % min(len(out), 3))
+        return out
+
+    # ---- numeric lists with shortcuts
+    def nlist(self, n, kind="REAL", shortcuts=True, positive=False, end_pad=None, last_final=False, values=None):
+        """a list that expands to exactly n entries; returns the list of [item, opad]"""
+        r = self.rng
+        items = []
+        k = 0
+        prev = None      # previous item kind
+        use = shortcuts and r.random() < 0.45
+        vk = "POS" if positive else kind
+        while k < n:
+            left = n - k
+            choice = "num"
+            if use and r.random() < 0.4:
+                opts = ["j"]
+                if prev not in (None, "j"):
+                    opts += ["rep", "rep", "mul"]
+                    if left >= 2 and prev == "num":
+                        opts += ["int", "int", "log"]
+                choice = r.choice(opts)
+            if values is not None and choice not in ("num",):
+                choice = "num"
+            if choice == "num":
+                v = values[k] if values is not None else self.real(vk)
+                it = ["num", v]
+                k += 1
+                self.hit("NL:number")
+            elif choice == "j":
+                c = r.choice([None, None, 1, 2, 3])
+                c = None if c is None or c > left else c
+                it = ["j", c]
+                k += c or 1
+                self.hit("NL:nJ" if c else "NL:J")
+            elif choice == "rep":
+                c = r.choice([None, None, 1, 2, 5])
+                c = None if c is None or c > left else c
+                it = ["rep", c]
+                k += c or 1
+                self.hit("NL:nR" if c else "NL:R")
+            elif choice == "mul":
+                if r.random() < 0.12:
+                    x = self.real("UREAL", nonzero=True)
+                    if x[3] is None and x[4] is None:
+                        x[3] = "5"
+                    self.tags.add("mul-real")
+                    self.hit("NL:xM-real")
+                else:
+                    x = ["r", "n", digits(r, 1, True), None, None]
+                    self.hit("NL:xM")
+                it = ["mul", x]
+                k += 1
+            else:
+                c = r.choice([None, 1, 2, 3])
+                c = None if c is None or c + 1 > left else c
+                if (c or 1) + 1 > left:
+                    continue
+                # w follows: the whole item contributes c (or 1) interpolated entries + w
+                if choice == "log" or positive:
+                    w = self.real("POS")
+                else:
+                    w = self.real(vk, nonzero=True)
+                if choice == "log":
+                    # only between positive numbers: the previous number must be positive too
+                    pv = items[-1][0][1]
+                    if pv[1] == "m" or real_zero(pv):
+                        continue
+                it = [choice, c, None, w]
+                k += (c or 1) + 1
+                self.hit("NL:" + ("nI" if c else "I") + ("LOG" if choice == "log" else ""))
+            if prev not in (None, "num") and it[0] != "num":
+                self.hit("NL:adjacent-shortcuts")
+                self.tags.add("adjacent-shortcuts")
+            if not items and it[0] == "j":
+                self.hit("NL:shortcut-first")
+            # emit in reading order
+            if it[0] in ("int", "log"):
+                self.emit(nitem_toks([it[0], it[1], ["sp", 0], ["r", "n", "", None, None]])[:1])
+                it[2] = self.pad()
+                self.emit([num_tok(it[3])])
+            else:
+                self.emit(nitem_toks(it))
+            last = k >= n
+            if last:
+                if it[0] != "num":
+                    self.hit("NL:shortcut-last")
+                p = end_pad() if end_pad else None
+            else:
+                p = self.pad()
+            items.append([it, p])
+            prev = it[0]
+        return items
+
+    def plain_list(self, vals, end_pad=None):
+        """numbers without shortcuts (trbody, bins): vals are real nodes"""
+        out = []
+        for n, v in enumerate(vals):
+            self.emit([num_tok(v)])
+            last = n == len(vals) - 1
+            out.append([["num", v], (end_pad() if end_pad else None) if last else self.pad()])
+        return out
+
+    def trbody(self, degrees=False):
+        n = self.rng.choice([3, 3, 6, 8, 9, 12, 12, 13])
+        self.hit("trbody:%d" % n)
+        vals = [self.real("REAL") for _ in range(min(n, 12))]
+        if n == 13:
+            vals.append(self.simple(self.rng.choice(["1", "-1"])))
+        return vals
+
+    # ---- cells
+    def leaf(self, surfs):
+        r = self.rng
+        s = r.choice(["n", "n", "m", "m", "p"])
+        self.hit("leaf:" + {"n": "plain", "m": "-", "p": "+"}[s])
+        node = ["leaf", ["r", s, str(r.choice(surfs)), None, None]]
+        self.emit(fact_toks(node))
+        return node
+
+    def fact(self, ctx, depth):
+        r = self.rng
+        x = r.random()
+        if depth <= 0 or x < 0.55:
+            return self.leaf(ctx["surfs"])
+        if x < 0.65 and ctx["compl"]:
+            node = ["ccell", ["r", "n", str(r.choice(ctx["compl"])), None, None]]
+            self.emit(fact_toks(node))
+            self.hit("fact:#INT")
+            return node
+        kind = "cpar" if x < 0.78 else "par"
+        self.hit("fact:#(geom)" if kind == "cpar" else "fact:(geom)")
+        self.emit([("COMPLEMENT", "#"), ("(", "(")] if kind == "cpar" else [("(", "(")])
+        pl = self.opad(0.2)
+        if pl is not None:
+            self.hit("L:pad-after-(")
+        e = self.expr(ctx, depth - 1, inner=True)
+        self.emit([(")", ")")])
+        return [kind, pl, e]
+
+    def term(self, ctx, depth):
+        r = self.rng
+        t = ["t1", self.fact(ctx, depth)]
+        last = t[1]
+        n = r.choice([0, 0, 1, 1, 2, 3]) if depth > 0 else r.choice([0, 1, 2])
+        for _ in range(n):
+            # a blank is required between two facts unless a parenthesis separates them
+            can_touch = last[0] in ("par", "cpar")
+            nxt_par = depth > 0 and r.random() < 0.3
+            if nxt_par:
+                sep = self.opad(0.5)
+                self.hit("term:fact(fact)" if sep is None else "term:fact (fact)")
+                self.hit("fact:(geom)")
+                self.emit([("(", "(")])
+                pl = self.opad(0.2)
+                e = self.expr(ctx, depth - 1, inner=True)
+                self.emit([(")", ")")])
+                f = ["par", pl, e]
+            elif can_touch and r.random() < 0.4:
+                sep = None
+                self.hit("term:(fact)leaf")
+                f = self.leaf(ctx["surfs"])
+            else:
+                sep = self.pad()
+                self.hit("term:fact fact")
+                f = self.fact(ctx, depth - 1 if depth > 0 else 0)
+                if f[0] in ("par",):
+                    pass
+            t = ["tand", t, sep, f]
+            last = f
+        return t, last
+
+    def expr(self, ctx, depth, inner=False, trail=None):
+        """inner: inside parentheses (trailing padding optional); otherwise `trail` decides the last padding"""
+        r = self.rng
+        t, last = self.term(ctx, depth)
+        n = r.choice([0, 0, 0, 1, 1, 2]) if depth > 0 else r.choice([0, 0, 1])
+        if n == 0:
+            tr = self.opad(0.15) if inner else (trail() if trail else None)
+            return ["e1", t, tr]
+        e = ["e1", t, self.opad(0.4)]
+        for k in range(n):
+            self.emit([(":", ":")])
+            self.hit("geom:union")
+            pr = self.opad(0.4)
+            t, last = self.term(ctx, depth)
+            lastone = k == n - 1
+            if lastone:
+                tr = self.opad(0.15) if inner else (trail() if trail else None)
+            else:
+                tr = self.opad(0.4)
+            e = ["eor", e, pr, t, tr]
+        return e
+
+    def trvalue(self, kind, endp):
+        """(trbody) value of FILL / TRCL, with or without padding after the parenthesis"""
+        self.emit([("(", "(")])
+        pl = None
+        if self.rare(0.12):
+            pl = self.pad(allow_break=False)
+            self.tags.add("paren-lead-pad:" + kind)
+            self.hit("L:pad-after-(-in-" + kind)
+        inner = self.plain_list(self.trbody(), end_pad=lambda: self.opad(0.15))
+        self.emit([(")", ")")])
+        return pl, inner, endp()
+
+    def cparam(self, key, ctx, last):
+        """one keyword parameter of a cell; `last`: nothing follows on the card"""
+        r = self.rng
+        star = False
+        num = None
+        parts = []
+        if key in ("fill", "trcl") and r.random() < 0.3:
+            star = True
+            self.emit([("*", "*")])
+        self.emit([("KEYWORD", key)])
+        if key in ("wwn", "dxc", "pd"):
+            num = r.choice([1, 1, 2, 5, 12])
+            self.emit([("NUMBER", str(num))])
+        if key == "imp":
+            parts = [p for _, p in self.plist("cell", n=ctx.get("imp_n"))] if not ctx.get("imp_parts") else ctx["imp_parts"]
+        elif key in ("ext", "fcl", "elpt", "unc", "wwn", "dxc"):
+            parts = [self.particle("cell")[1]]
+        if parts:
+            self.emit(parts_toks([("PARTICLE", p) for p in parts]))
+        sep = self.sep()
+        endp = (lambda: self.opad(0.3, final=True)) if last else self.pad
+
+        def single(v):
+            self.emit([num_tok(v)])
+            return ["cvl", [[["num", v], endp()]]]
+        self.hit("cparam:" + ("*" if star else "") + key.upper())
+        if key in ("nonu", "unc"):
+            self.tags.add("cparam:" + key)
+        if key == "imp":
+            val = single(self.simple(r.choice(["1", "0", "2", "0.5", "1.0", "4"])) if r.random() < 0.7 else self.real("UREAL"))
+        elif key == "vol":
+            val = single(self.real("POS"))
+        elif key == "u":
+            s = "m" if r.random() < 0.3 else "n"
+            self.hit("U:" + ("-INT" if s == "m" else "INT"))
+            val = single(["r", s, str(ctx.get("u") or r.choice(ctx["univs"])), None, None])
+        elif key == "lat":
+            val = single(self.simple(r.choice(["1", "2"])))
+        elif key == "fill":
+            x = r.random()
+            if x < 0.3 and not star:
+                self.hit("FILL:lattice-ranges")
+                rngs = []
+                cnt = 1
+                s = None
+                for ax in range(3):
+                    lo = r.choice([0, 0, -1, -2]) if ax < 2 else 0
+                    hi = lo + (r.choice([0, 1, 2]) if ax < 2 else r.choice([0, 0, 1]))
+                    cnt *= hi - lo + 1
+                    a = self.simple(str(lo))
+                    b = self.simple(("+" if hi > 0 and r.random() < 0.1 else "") + str(hi))
+                    self.emit([num_tok(a)])
+                    s = ["cvl", [[["num", a], None]]] if s is None else ["cvn", s, ["num", a], None]
+                    self.emit([(":", ":"), num_tok(b)])
+                    s = ["cvr", s, b, self.pad()]
+                for k in range(cnt):
+                    v = self.simple(str(r.choice(ctx["univs"])))
+                    self.emit([num_tok(v)])
+                    s = ["cvn", s, ["num", v], endp() if k == cnt - 1 else self.pad()]
+                val = s
+            else:
+                u = self.simple(str(r.choice(ctx["univs"])))
+                self.emit([num_tok(u)])
+                if x < 0.55 and not star:
+                    self.hit("FILL:n")
+                    val = ["cvl", [[["num", u], endp()]]]
+                elif x < 0.7 and not star and ctx["trs"]:
+                    self.hit("FILL:n (INT)")
+                    head = ["cvl", [[["num", u], self.opad(0.8)]]]
+                    self.emit([("(", "(")])
+                    t = self.simple(str(r.choice(ctx["trs"])))
+                    self.emit([num_tok(t), (")", ")")])
+                    val = ["cvg", head, None, [[["num", t], None]], endp()]
+                else:
+                    self.hit("FILL:n (trbody)")
+                    head = ["cvl", [[["num", u], self.opad(0.8)]]]
+                    pl, inner, p = self.trvalue("fill", endp)
+                    val = ["cvg", head, pl, inner, p]
+        elif key == "trcl":
+            if r.random() < 0.4 and not star and ctx["trs"]:
+                self.hit("TRCL:INT")
+                val = single(self.simple(str(r.choice(ctx["trs"]))))
+            else:
+                self.hit("TRCL:(trbody)")
+                pl, inner, p = self.trvalue("trcl", endp)
+                val = ["cvp", pl, inner, p]
+        elif key == "tmp":
+            val = single(self.real("POS"))
+        elif key in ("nonu", "bflcl"):
+            val = single(self.simple(r.choice(["0", "1", "2"])))
+        elif key == "cosy":
+            val = single(self.simple(str(r.randint(1, 6))))
+        else:   # pwt ext fcl elpt unc wwn dxc pd: REAL
+            val = single(self.real("REAL"))
+        return ["cp", star, key, num, parts, sep, val]
+
+    def cell(self, ctx):
+        """ctx: num, surfs, compl (cell numbers that may be complemented), mat (number or 0), univs, trs,
+        params: list of keys to write on the card, imp_parts"""
+        r = self.rng
+        self.tags = set()
+        lead = self.lead()
+        num = ["r", "n", str(ctx["num"]), None, None]
+        self.emit([num_tok(num)])
+        p0 = self.pad()
+        if ctx["mat"] == 0:
+            self.hit("mat:void")
+            z = ["r", "n", "0", None, None]
+            self.emit([num_tok(z)])
+            mat = ["void", z, self.pad()]
+        else:
+            m = ["r", "n", str(ctx["mat"]), None, None]
+            self.emit([num_tok(m)])
+            p1 = self.pad()
+            d = self.real("POS")
+            if r.random() < 0.5:
+                d[1] = "m"
+                self.hit("mat:-dens")
+            else:
+                self.hit("mat:+dens")
+            self.emit([num_tok(d)])
+            mat = ["mat", m, p1, d, self.pad()]
+        keys = list(ctx["params"])
+        has = bool(keys)
+        trail = self.pad if has else (lambda: self.opad(0.3, final=True))
+        geom = self.expr(ctx, r.choice([0, 1, 1, 2, 2, 3]), trail=trail)
+        params = [self.cparam(k, ctx, n == len(keys) - 1) for n, k in enumerate(keys)]
+        return ["cell", lead, num, p0, mat, geom, params]
+
+    # ---- surfaces
+    def surface(self, ctx):
+        """ctx: num, trs, periodic (surface numbers usable as periodic partner)"""
+        r = self.rng
+        self.tags = set()
+        lead = self.lead()
+        mod = r.choice([None, None, None, "*", "+"])
+        self.hit("surface:modifier-" + (mod or "none"))
+        num = ["r", "n", str(ctx["num"]), None, None]
+        self.emit(([("*", "*")] if mod == "*" else []) + [num_tok(["r", "p"] + num[2:] if mod == "+" else num)])
+        p1 = self.pad()
+        ptr = None
+        x = r.random()
+        if x < 0.2 and ctx["trs"]:
+            t = ["r", "n", str(r.choice(ctx["trs"])), None, None]
+            self.hit("surface:pointer-transform")
+        elif x < 0.3 and ctx["periodic"]:
+            t = ["r", "m", str(r.choice(ctx["periodic"])), None, None]
+            self.hit("surface:pointer-periodic")
+        else:
+            t = None
+            self.hit("surface:pointer-none")
+        if t:
+            self.emit([num_tok(t)])
+            ptr = [t, self.pad()]
+        mn = ctx.get("mn") or r.choice(list(SURF_COUNTS))
+        cnt = r.choice(SURF_COUNTS[mn])
+        self.hit("MN:%s/%d" % (mn.upper(), cnt))
+        self.emit([("SURFACE_TYPE", mn)])
+        p2 = self.pad()
+        endp = lambda: self.opad(0.3, final=True)
+        if mn in CONE_SHEET and cnt == CONE_SHEET[mn]:
+            body = self.nlist(cnt - 1, "REAL", end_pad=self.pad)
+            sheet = self.simple(r.choice(["1", "-1", "+1"]))
+            self.emit([num_tok(sheet)])
+            data = body + [[["num", sheet], endp()]]
+        else:
+            data = self.nlist(cnt, "REAL", end_pad=endp)
+        return ["surf", lead, mod, num, p1, ptr, mn, p2, data]
+
+    # ---- data cards
+    def dcls(self, name, num=None, parts=None, mod=None):
+        cls = [mod, name, num, [[s, p] for s, p in (parts or [])]]
+        self.emit(dcls_toks(cls))
+        return cls
+
+    def endp(self):
+        return self.opad(0.3, final=True)
+
+    def data_numbers(self, name, n, kind="REAL", num=None, parts=None, mod=None, kw=None, shortcuts=True, positive=False,
+                     values=None):
+        self.tags = set()
+        lead = self.lead()
+        cls = self.dcls(name, num, parts, mod)
+        if n == 0 and kw is None:
+            return ["data", lead, cls, self.endp(), None, ["dnone"], []]
+        p = self.pad()
+        k = None
+        if kw:
+            self.emit([("KEYWORD", kw)])
+            k = [kw, self.pad()]
+        lst = self.nlist(n, kind, shortcuts=shortcuts, positive=positive, end_pad=self.endp, values=values)
+        return ["data", lead, cls, p, k, ["dnums", lst], []]
+
+    def material(self, ctx):
+        r = self.rng
+        self.tags = set()
+        lead = self.lead()
+        num = ctx["num"]
+        self.emit([("TEXT", "m"), ("NUMBER", str(num))])
+        pad = self.pad()
+        n = r.choice([1, 1, 2, 3, 4, 6])
+        neg = r.random() < 0.4
+        self.hit("M:fractions-" + ("negative" if neg else "positive"))
+        nparams = r.choice([0, 0, 0, 1, 1, 2, 3])
+        zs = []
+        seen_lib = False
+        for k in range(n):
+            z, aa = r.choice(ELEMENTS)
+            a = r.choice(aa)
+            base = "%d%03d" % (z, a)
+            x = r.random()
+            if x < 0.25:
+                lib, zz = False, base
+                self.hit("zaid:no-library")
+                if seen_lib:
+                    self.tags.add("mat-plain-after-lib")
+            elif x < 0.8:
+                lib, zz = True, base + "." + digits(r, 2) + r.choice("cpeh")
+                self.hit("zaid:.DDL")
+                seen_lib = True
+            else:
+                lib, zz = True, base + "." + digits(r, 3) + r.choice(["nc", "pc", "tc"])
+                self.hit("zaid:.DDDLL")
+                seen_lib = True
+            self.emit([("ZAID" if lib else "NUMBER", zz)])
+            p1 = self.pad()
+            fr = self.real("POS")
+            if neg:
+                fr[1] = "m"
+            self.emit([num_tok(fr)])
+            last = k == n - 1 and nparams == 0
+            zs.append(["zaid", lib, zz, p1, fr, self.endp() if last else self.pad()])
+        ps = []
+        keys = r.sample(MAT_LIB_KEYS + MAT_NUM_KEYS, nparams)
+        for k, key in enumerate(keys):
+            last = k == nparams - 1
+            self.emit([("KEYWORD", key)])
+            sep = self.sep(eq_only=True)
+            self.hit("mkey:" + key.upper())
+            if key in MAT_LIB_KEYS:
+                lib = digits(r, 2) + LIB_SUFFIX[key]
+                self.emit([("NUMBER_WORD", lib)])
+                self.hit("mval:DDL")
+                ps.append(["mpl", key, sep, lib, self.endp() if last else self.pad()])
+            else:
+                v = self.real("REAL")
+                self.emit([num_tok(v)])
+                self.hit("mval:REAL")
+                ps.append(["mpn", key, sep, [[["num", v], self.endp() if last else self.pad()]]])
+        return ["mcard", lead, num, pad, zs, ps]
+
+    def thermal(self, ctx):
+        r = self.rng
+        self.tags = set()
+        lead = self.lead()
+        self.emit([("TEXT", "mt"), ("NUMBER", str(ctx["num"]))])
+        pad = self.pad()
+        n = r.choice([1, 1, 2, 3])
+        laws = []
+        for k in range(n):
+            l = r.choice(LAWS)
+            self.emit([("THERMAL_LAW", l)])
+            laws.append([l, self.endp() if k == n - 1 else self.pad()])
+        self.hit("MT:%d-laws" % min(n, 2))
+        return ["mtcard", lead, ctx["num"], pad, laws]
+
+    def transform(self, ctx):
+        star = self.rng.random() < 0.4
+        self.hit("TR:" + ("*TR" if star else "TR"))
+        vals = self.trbody(star)
+        return self.data_numbers("tr", len(vals), num=ctx["num"], mod="*" if star else None, shortcuts=False, values=vals)
+
+    def mode(self, parts):
+        self.tags = set()
+        for s, p in parts:
+            if p in "uxyz":
+                self.tags.add("particle-keyword:" + p)
+            if s and p in "+-!/^_~@#":
+                self.tags.add("particle-symbol:%s@data" % p)
+        lead = self.lead()
+        cls = self.dcls("mode")
+        pad = self.pad()
+        ps = []
+        for k, (s, p) in enumerate(parts):
+            self.emit([dpart_tok((s, p))])
+            ps.append([s, p, self.endp() if k == len(parts) - 1 else self.pad()])
+        self.hit("MODE:%d" % min(len(parts), 3))
+        return ["data", lead, cls, pad, None, ["dparts", ps], []]
+
+    def tally(self, ctx):
+        r = self.rng
+        self.tags = set()
+        lead = self.lead()
+        mod = r.choice([None, None, None, "*", "+"])
+        self.hit("F:modifier-" + (mod or "none"))
+        if mod == "+":
+            self.tags.add("tally-mod:+")
+        parts = ctx.get("parts") or self.plist("data", n=r.choice([1, 1, 2]))
+        cls = self.dcls("f", ctx["num"], parts, mod)
+        pad = self.pad()
+        n = r.choice([1, 1, 2, 3, 4])
+        want_end = r.random() < 0.35
+        items = []
+        for k in range(n):
+            last = k == n - 1
+            fin = last and not want_end
+            if r.random() < 0.4:
+                self.emit([("(", "(")])
+                pl = None
+                if self.rare(0.12):
+                    pl = self.pad(allow_break=False)
+                    self.tags.add("paren-lead-pad:tally")
+                    self.hit("L:pad-after-(-in-tally")
+                m = r.choice([1, 2, 2, 3, 5])
+                inner = self.plain_list([self.sint(ctx["cells"]) for _ in range(m)], end_pad=lambda: self.opad(0.15))
+                self.emit([(")", ")")])
+                pr = self.endp() if fin else self.opad(0.8)
+                items.append(["tig", pl, inner, pr])
+                self.hit("tbins:(SINT+)")
+            else:
+                m = r.choice([1, 1, 2, 4])
+                if items and items[-1][0] == "tin":
+                    # two plain runs in a row are one run
+                    continue_run = items.pop()
+                    inner0 = continue_run[1]
+                else:
+                    inner0 = []
+                inner = self.plain_list([self.sint(ctx["cells"]) for _ in range(m)], end_pad=self.endp if fin else self.pad)
+                items.append(["tin", inner0 + inner])
+                self.hit("tbins:SINT")
+        end = None
+        if want_end:
+            self.emit([("PARTICLE", "t")])
+            end = ["t", self.endp()]
+            self.hit("tbins:T")
+        return ["tally", False, lead, cls, pad, items, end]
+
+    def sint(self, pool):
+        s = self.rng.choice(["n", "n", "n", "m", "p"]) if self.rng.random() < 0.5 else "n"
+        return ["r", s, str(self.rng.choice(pool)), None, None]
+
+    def fm(self, ctx):
+        r = self.rng
+        self.tags = set()
+        lead = self.lead()
+        cls = self.dcls("fm", ctx["num"])
+        pad = self.pad()
+        n = r.choice([1, 1, 2, 3])
+        items = []
+        for k in range(n):
+            last = k == n - 1
+            if r.random() < 0.5:
+                self.emit([("(", "(")])
+                pl = None
+                if self.rare(0.12):
+                    pl = self.pad(allow_break=False)
+                    self.tags.add("paren-lead-pad:tally")
+                inner = self.plain_list([self.real("REAL") for _ in range(r.choice([1, 3, 4]))], end_pad=lambda: self.opad(0.15))
+                self.emit([(")", ")")])
+                items.append(["tig", pl, inner, self.endp() if last else self.opad(0.8)])
+                self.hit("FM:(REAL+)")
+            else:
+                inner0 = items.pop()[1] if items and items[-1][0] == "tin" else []
+                inner = self.plain_list([self.real("REAL") for _ in range(r.choice([1, 3]))], end_pad=self.endp if last else self.pad)
+                items.append(["tin", inner0 + inner])
+                self.hit("FM:REAL")
+        return ["tally", False, lead, cls, pad, items, None]
+
+    def fs(self, ctx):
+        r = self.rng
+        self.tags = set()
+        lead = self.lead()
+        cls = self.dcls("fs", ctx["num"])
+        pad = self.pad()
+        want_end = r.random() < 0.4
+        inner = self.plain_list([self.sint(ctx["surfs"]) for _ in range(r.choice([1, 2, 3, 5]))],
+                                end_pad=self.pad if want_end else self.endp)
+        end = None
+        if want_end:
+            self.emit([("PARTICLE", "t")])
+            end = ["t", self.endp()]
+        self.hit("FS:" + ("T" if want_end else "plain"))
+        return ["tally", True, lead, cls, pad, [["tin", inner]], end]
+
+    def comment_card(self, source, num):
+        self.tags = set()
+        lead = self.lead()
+        txt = ("sc" if source else "fc") + str(num) + self.text(5)
+        self.hit("SC" if source else "FC")
+        self.emit([("X", txt)])
+        return ["text", lead, source, txt]
+
+    def sdef(self, ctx):
+        r = self.rng
+        self.tags = set()
+        lead = self.lead()
+        cls = self.dcls("sdef")
+        n = r.choice([0, 1, 2, 3, 3, 5]) if r.random() < 0.15 else r.choice([1, 2, 3, 3, 5])
+        if n == 0:
+            self.tags.add("sdef-empty")
+            self.hit("SDEF:no-parameters")
+            return ["sdef", lead, cls, ["sp", 0], []]
+        pad = self.pad()
+        keys = r.sample(SDEF_KEYS, n)
+        ps = []
+        for k, key in enumerate(keys):
+            last = k == n - 1
+            endp = self.endp if last else self.pad
+            self.emit([("KEYWORD", key)])
+            sep = self.sep()
+            self.hit("skey:" + key.upper())
+            x = r.random()
+            if key == "par":
+                if x < 0.6:
+                    s, p = self.particle("data")
+                    self.emit([dpart_tok((s, p))])
+                    v = ["svp", [s, p, endp()]]
+                    self.hit("sval:pl")
+                else:
+                    w = self.simple(str(r.choice([1, 2, 3, 9])))
+                    self.emit([num_tok(w)])
+                    v = ["svn", [[["num", w], endp()]]]
+                    self.hit("sval:REAL+")
+            elif x < 0.3 and key not in SDEF_VECTOR:
+                d = self.simple(str(r.choice(ctx["dists"])))
+                self.emit([("PARTICLE", "d"), num_tok(d)])
+                v = ["svd", d, endp()]
+                self.hit("sval:D INT")
+            else:
+                m = SDEF_VECTOR.get(key, 1)
+                v = ["svn", self.plain_list([self.real("REAL") for _ in range(m)], end_pad=endp)]
+                self.hit("sval:REAL+")
+            ps.append(["spar", key, sep, v])
+        return ["sdef", lead, cls, pad, ps]
+
+    def dist_card(self, name, num):
+        r = self.rng
+        self.tags = set()
+        lead = self.lead()
+        cls = self.dcls(name, num)
+        pad = self.pad()
+        n = r.choice([1, 2, 3, 5, 9])
+        if r.random() < 0.6:
+            o = r.choice(DIST_OPTIONS)
+            self.emit([("PARTICLE", o)])
+            p = self.pad()
+            self.hit("%s:option-%s" % (name.upper(), o.upper()))
+            lst = self.nlist(n, "REAL", end_pad=self.endp)
+            return ["data", lead, cls, pad, None, ["dopt", o, p, lst], []]
+        self.hit("%s:no-option" % name.upper())
+        return ["data", lead, cls, pad, None, ["dnums", self.nlist(n, "REAL", end_pad=self.endp)], []]
+
+    def generic(self, name, ctx):
+        r = self.rng
+        self.tags = set()
+        has_num, has_part, keys = GENERIC[name]
+        lead = self.lead()
+        num = r.choice([1, 2, 14]) if has_num and r.random() < 0.8 else None
+        if name == "fmesh":
+            num = r.choice([4, 14, 24])
+        parts = self.plist("data", n=1) if has_part and r.random() < 0.85 else None
+        if name in ("fmesh", "wwn") and not parts:
+            parts = self.plist("data", n=1)
+        cls = self.dcls(name, num, parts)
+        self.hit("gname:" + name.upper())
+        words = GENERIC_WORDS.get(name, [])
+        nk = r.choice([0, 1, 2]) if keys else 0
+        nw = 1 if words and r.random() < 0.6 else 0
+        if name in ("mesh", "fmesh", "rand", "burn", "act"):
+            n = 0
+            nk = max(nk, 1 - nw)
+        else:
+            n = r.choice([0, 1, 1, 2, 3, 6]) if name in ("print", "void", "totnu", "nonu") else r.choice([1, 1, 2, 3, 6])
+        self.hit("generic:%s%s%s" % ("numbers" if n else "no-numbers", "+keys" if nk else "", "+word" if nw else ""))
+        total = nk + nw
+        if n == 0 and total == 0:
+            return ["data", lead, cls, self.endp(), None, ["dnone"], []]
+        pad = self.pad()
+        dd = ["dnone"]
+        if n:
+            dd = ["dnums", self.nlist(n, "REAL", end_pad=self.endp if total == 0 else self.pad)]
+        ps = []
+        for k, key in enumerate(r.sample(keys, nk)):
+            last = k == total - 1
+            self.emit([(word_class(key), key)])
+            sep = self.sep(eq_only=True)
+            m = r.choice([1, 1, 2, 3])
+            ps.append(["dp", key, sep, self.nlist(m, "REAL", shortcuts=False, end_pad=self.endp if last else self.pad)])
+            self.hit("gkey:=REAL")
+        if nw:
+            key, ws = r.choice(words)
+            self.emit([(word_class(key), key)])
+            sep = self.sep(eq_only=True)
+            w = r.choice(ws)
+            self.emit([("TEXT", w)])
+            ps.append(["dpw", key, sep, w, self.endp()])
+            self.hit("gkey:=WORD")
+        return ["data", lead, cls, pad, None, dd, ps]
+
+
+# =============================================================================== part 3: problems
+CELL_KEYS = ["imp", "vol", "u", "lat", "fill", "trcl", "tmp", "pwt", "nonu", "cosy", "bflcl", "ext", "fcl", "elpt",
+             "unc", "wwn", "dxc", "pd"]
+
+
+def gen_problem(rng, wild=0.0, size=None):
+    """A well-formed problem of G_core: a list of sentences [{block, shape, mask, tags}], with the context
+    conditions of section 5.2 (numbers unique per kind, references resolve, IMP covers MODE, each per-cell datum
+    in one block only).  Returns (sentences, plan, coverage Counter)."""
+    g = Gen(rng, wild)
+    r = rng
+    ncell = size or r.choice([2, 2, 3, 3, 4, 5, 6, 9])
+    nsurf = r.choice([2, 3, 4, 5, 6, 8, 12])
+
+    def uniq(n, hi):
+        s = set()
+        while len(s) < n:
+            s.add(r.randint(1, hi) if r.random() < 0.8 else r.randint(1, 99999999))
+        return sorted(s)
+    cells = uniq(ncell, 99)
+    surfs = uniq(nsurf, 999)
+    mats = uniq(r.choice([1, 1, 2, 3]), 99)
+    trs = uniq(r.choice([0, 1, 2]), 99)
+    univs = uniq(r.choice([1, 2]), 50)
+    # mode: mostly ordinary particles
+    nmode = r.choice([1, 1, 2, 2, 3])
+    mode = []
+    while len(mode) < nmode:
+        s, p = g.particle("data") if r.random() < 0.25 else (False, r.choice("npe"))
+        if p not in [q for _, q in mode]:
+            mode.append((s, p))
+    where = {k: r.choice(["cell", "cell", "data", "none"]) for k in ("vol", "u", "lat", "fill")}
+    where["imp"] = r.choice(["cell", "cell", "data"])
+    if where["lat"] != "none" and where["fill"] == "none":
+        where["fill"] = where["lat"]
+    plan = {"cells": cells, "surfs": surfs, "mats": mats, "trs": trs, "univs": univs, "mode": mode, "where": where}
+    out = []
+
+    def add(block, shape):
+        mask = r.choice(["0", "0", "0", "1", "1"]) if r.random() < 0.7 else "".join(r.choice("01") for _ in range(r.randint(2, 7)))
+        g.hit("case:" + ("lower" if set(mask) == {"0"} else "upper" if set(mask) == {"1"} else "mixed-per-token"))
+        out.append({"block": block, "shape": shape, "mask": mask, "tags": sorted(g.tags)})
+
+    # every universe that is referred to exists: cell k (k < len(univs)) is in universe univs[k] when u is in the cell block
+    u_of = {}
+    if where["u"] != "none":
+        for k, c in enumerate(cells):
+            u_of[c] = univs[k] if k < len(univs) else r.choice([None, None] + univs)
+    lat_of = {c: r.choice([None, None, 1, 2]) for c in cells} if where["lat"] != "none" else {}
+    fill_of = {}
+    if where["fill"] != "none" and where["u"] != "none":
+        for c in cells:
+            if lat_of.get(c) or r.random() < 0.3:
+                fill_of[c] = True
+    extra_keys = ["tmp", "pwt", "nonu", "cosy", "bflcl", "ext", "fcl", "elpt", "unc", "wwn", "dxc", "pd", "trcl"]
+    for k, c in enumerate(cells):
+        keys = []
+        if where["imp"] == "cell":
+            keys.append("imp")
+        if where["vol"] == "cell" and r.random() < 0.6:
+            keys.append("vol")
+        if where["u"] == "cell" and u_of.get(c):
+            keys.append("u")
+        if where["lat"] == "cell" and lat_of.get(c):
+            keys.append("lat")
+        if where["fill"] == "cell" and fill_of.get(c):
+            keys.append("fill")
+        ne = r.choice([0, 0, 0, 1, 1, 2, 3])
+        keys += r.sample(extra_keys, ne)
+        r.shuffle(keys)
+        ctx = {"num": c, "surfs": surfs, "compl": cells[:k], "mat": r.choice([0] + mats), "univs": univs, "trs": trs,
+               "params": [], "u": u_of.get(c)}
+        imp_cards = []
+        if "imp" in keys:
+            # IMP covers exactly the particles of MODE: one parameter with all of them, or one per particle
+            parts = [p for _, p in mode]
+            for s, p in mode:
+                if p in "uxyz":
+                    pass
+            if len(parts) > 1 and r.random() < 0.4:
+                imp_cards = [[p] for p in parts]
+            else:
+                imp_cards = [parts]
+        full = []
+        for key in keys:
+            if key == "imp":
+                full += [("imp", ps) for ps in imp_cards]
+            else:
+                full.append((key, None))
+        # build through the generator, one parameter at a time, keeping reading order
+        ctx["params"] = [k_ for k_, _ in full]
+        imps = [ps for k_, ps in full if k_ == "imp"]
+        shape = _cell_with_imps(g, ctx, imps, mode)
+        add("cell", shape)
+    for k, s in enumerate(surfs):
+        ctx = {"num": s, "trs": trs, "periodic": surfs[:k]}
+        add("surface", g.surface(ctx))
+    # ---- data block
+    cards = []
+    cards.append(lambda: g.mode(mode))
+    for m in mats:
+        cards.append(lambda m=m: g.material({"num": m}))
+        if r.random() < 0.4:
+            cards.append(lambda m=m: g.thermal({"num": m}))
+    for t in trs:
+        cards.append(lambda t=t: g.transform({"num": t}))
+    n = len(cells)
+
+    def trailing(k):
+        return r.randint(1, k) if r.random() < 0.3 else k
+    if where["imp"] == "data":
+        groups = [[p] for p in mode] if len(mode) > 1 and r.random() < 0.5 else [mode]
+        for grp in groups:
+            cards.append(lambda grp=grp: _tagged_parts(g, grp, g.data_numbers("imp", n, "UREAL", parts=grp)))
+            g.hit("IMP-card")
+    if where["vol"] == "data":
+        no = r.random() < 0.4
+        g.hit("VOL:" + ("NO" if no else "plain"))
+        cards.append(lambda no=no: g.data_numbers("vol", trailing(n), "UREAL", kw="no" if no else None, positive=True))
+    if where["u"] == "data":
+        vals = [g.simple(("-" if r.random() < 0.2 else "") + str(u_of[c])) if u_of.get(c) else g.simple("0") for c in cells]
+        cards.append(lambda vals=vals: g.data_numbers("u", len(vals), values=vals))
+        g.hit("U-card")
+    if where["lat"] == "data":
+        vals = [g.simple(str(lat_of[c] or 0)) for c in cells]
+        cards.append(lambda vals=vals: g.data_numbers("lat", len(vals), values=vals))
+        g.hit("LAT-card")
+    if where["fill"] == "data" and where["u"] != "none":
+        vals = [g.simple(str(r.choice(univs)) if fill_of.get(c) else "0") for c in cells]
+        cards.append(lambda vals=vals: g.data_numbers("fill", len(vals), values=vals))
+        g.hit("FILL-card")
+    tnums = set()
+    for _ in range(r.choice([0, 1, 1, 2, 3])):
+        tn = r.choice([0, 1, 2, 10, 99]) * 10 + r.choice([1, 2, 4, 6, 7, 8])
+        if tn in tnums:
+            continue
+        tnums.add(tn)
+        tp = [r.choice(mode)]
+        cards.append(lambda tn=tn, tp=tp: _tagged_parts(g, tp, g.tally({"num": tn, "cells": cells if tn % 10 in (4, 6, 7, 8) else surfs, "parts": tp})))
+        for name in r.sample(NUM_CARDS, r.choice([0, 1, 2])):
+            cards.append(lambda name=name, tn=tn: (g.hit("card:" + name.upper()), g.data_numbers(name, r.choice([1, 2, 4, 8, 20]), "REAL", num=tn))[1])
+        if r.random() < 0.4:
+            cards.append(lambda tn=tn: g.comment_card(False, tn))
+        if r.random() < 0.4:
+            cards.append(lambda tn=tn: g.fm({"num": tn}))
+        if r.random() < 0.3:
+            cards.append(lambda tn=tn: g.fs({"num": tn, "surfs": surfs}))
+    dists = uniq(r.choice([1, 2]), 99)
+    if r.random() < 0.7:
+        cards.append(lambda: g.sdef({"dists": dists}))
+        for d in dists:
+            for name in r.sample(DIST_CARDS, r.choice([0, 1, 2])):
+                cards.append(lambda name=name, d=d: g.dist_card(name, d))
+            if r.random() < 0.3:
+                cards.append(lambda d=d: g.comment_card(True, d))
+    else:
+        cards.append(lambda: (g.hit("KCODE"), g.data_numbers("kcode", r.choice([1, 4, 4, 6]), "REAL"))[1])
+        cards.append(lambda: (g.hit("KSRC"), g.data_numbers("ksrc", 3 * r.choice([1, 2, 3]), "REAL"))[1])
+    for name in r.sample(sorted(GENERIC), r.choice([1, 2, 3, 5])):
+        cards.append(lambda name=name: g.generic(name, {}))
+    head = cards[:1]
+    rest = cards[1:]
+    r.shuffle(rest)
+    for c in head + rest:
+        add("data", c())
+    return out, plan, g.cov
+
+
+def _tagged_parts(g, parts, shape):
+    for s, p in parts:
+        if p in "uxyz":
+            g.tags.add("particle-keyword:" + p)
+        if s and p in "+-!/^_~@#":
+            g.tags.add("particle-symbol:%s@data" % p)
+    return shape
+
+
+def _cell_with_imps(g, ctx, imps, mode):
+    """Gen.cell with the importance parameters carrying the given particle lists"""
+    it = iter(imps)
+    orig = g.cparam
+
+    def cparam(key, c, last):
+        if key == "imp":
+            c = dict(c, imp_parts=next(it))
+        return orig(key, c, last)
+    g.cparam = cparam
+    try:
+        shape = g.cell(ctx)
+    finally:
+        del g.cparam
+    for s, p in mode:
+        if any(p in ps for ps in imps):
+            if p in "uxyz":
+                g.tags.add("particle-keyword:" + p)
+            if s:
+                g.tags.add("particle-symbol:%s@cell" % p)
+    return shape
+
+
+def problem_text(sentences, rng=None, title="core grammar problem", message=None, crlf=False):
+    """the file: [message] title cells BLANK surfaces BLANK data [BLANK]"""
+    parts = []
+    if message:
+        parts.append("MESSAGE: " + message + NL + NL)
+    parts.append(title + NL)
+    for blk in ("cell", "surface", "data"):
+        for s in sentences:
+            if s["block"] == blk:
+                parts.append(render(s["shape"], s["mask"]) + NL)
+        if blk != "data":
+            parts.append(NL)
+    text = "".join(parts)
+    if rng is not None and rng.random() < 0.5:
+        text += NL
+    return text.replace("\n", "\r\n") if crlf else text
+
+
+# =============================================================================== part 4: features of a shape
+PAD_KINDS = {"sp", "tab", "br", "dl", "de", "cm", "am", "ld"}
+
+
+def is_node(x, kinds):
+    return isinstance(x, list) and x and isinstance(x[0], str) and x[0] in kinds
+
+
+def walk(node):
+    """every list node of the tree, parents first"""
+    if isinstance(node, list):
+        yield node
+        for x in node:
+            yield from walk(x)
+
+
+def plain_int(r):
+    return r[1] == "n" and r[2] != "" and r[3] is None and r[4] is None
+
+
+def _ptag(special, p, where, out):
+    if p in ("u", "x", "y", "z"):
+        out.add("particle-keyword:" + p)
+    if special or p in SYMBOL_PARTICLES:
+        if where == "cell" or p in "+-!/^_~@#":
+            out.add("particle-symbol:%s@%s" % (p, where))
+
+
+def features(sh):
+    """the features of a sentence that the known findings are about — computed from the shape alone"""
+    out = set()
+    where = "cell" if sh[0] == "cell" else "data"
+    for n in walk(sh):
+        if is_node(n, {"cp"}) and len(n) == 7:
+            if n[2] in ("nonu", "unc"):
+                out.add("cparam:" + n[2])
+            for p in n[4]:
+                _ptag(False, p, "cell", out)
+        if is_node(n, {"cvg"}) and n[2] is not None:
+            out.add("paren-lead-pad:cell-value")
+        if is_node(n, {"cvp"}) and n[1] is not None:
+            out.add("paren-lead-pad:cell-value")
+        if is_node(n, {"tig"}) and n[1] is not None:
+            out.add("paren-lead-pad:tally")
+        if is_node(n, {"mul"}) and not plain_int(n[1]):
+            out.add("mul-real")
+        if is_node(n, {"r"}) and len(n) == 5 and n[4] is not None and n[4][0] == "f" and n[3] == "":
+            out.add("real:fortran-after-dot")
+        if is_node(n, {"svp"}):
+            _ptag(n[1][0], n[1][1], "data", out)
+        if is_node(n, {"dparts"}):
+            for p in n[1]:
+                _ptag(p[0], p[1], "data", out)
+    if sh[0] in ("data", "tally", "sdef"):
+        cls = sh[3] if sh[0] == "tally" else sh[2]
+        if cls[0] == "+":
+            out.add("tally-mod:+")
+        for s, p in cls[3]:
+            _ptag(s, p, "data", out)
+    if sh[0] == "sdef" and not sh[4]:
+        out.add("sdef-empty")
+    if sh[0] == "mcard":
+        seen = False
+        for z in sh[4]:
+            if z[1]:
+                seen = True
+            elif seen:
+                out.add("mat-plain-after-lib")
+    # runs of shortcuts that follow each other without a number in between
+    for n in walk(sh):
+        if isinstance(n, list) and n and all(isinstance(e, list) and len(e) == 2 and is_node(e[0], {"num", "j", "rep", "mul", "int", "log"}) for e in n):
+            run = 0
+            for it, _ in n:
+                run = run + 1 if it[0] != "num" else 0
+                if run >= 2:
+                    out.add("chained-shortcuts")
+                if it[0] in ("rep", "mul", "int", "log"):
+                    out.add("shortcut:" + it[0])
+                if it[0] == "j":
+                    out.add("shortcut:j")
+    return out
+
+
+def map_tree(node, f):
+    if isinstance(node, list):
+        return f([map_tree(x, f) for x in node])
+    return node
+
+
+def without(sh, tag):
+    """the same sentence with the tagged feature replaced by its ordinary alternative (None if not removable)"""
+    kind = tag.split(":")[0]
+    if kind == "cparam":
+        key = tag.split(":")[1]
+        if sh[0] != "cell":
+            return None
+        ps = [c for c in sh[6] if c[2] != key]
+        return sh[:6] + [ps]
+    if kind in ("particle-keyword", "particle-symbol"):
+        def f(n):
+            if is_node(n, {"cp"}) and len(n) == 7:
+                return n[:4] + [["n" if (p in "uxyz" or p in SYMBOL_PARTICLES) else p for p in n[4]]] + n[5:]
+            if is_node(n, {"svp"}):
+                return ["svp", [False, "n", n[1][2]]]
+            if is_node(n, {"dparts"}):
+                return ["dparts", [[False, "n" if k == 0 else "p", p[2]] if (p[1] in "uxyz" or p[0]) else p for k, p in enumerate(n[1])]]
+            return n
+        sh2 = map_tree(sh, f)
+        if sh2[0] in ("data", "tally", "sdef"):
+            i = 3 if sh2[0] == "tally" else 2
+            cls = sh2[i]
+            sh2[i] = [cls[0], cls[1], cls[2], [[False, "n"] if (p in "uxyz" or s) else [s, p] for s, p in cls[3]][:1] if cls[3] else []]
+        return sh2
+    if kind == "tally-mod":
+        sh2 = list(sh)
+        i = 3 if sh[0] == "tally" else 2
+        sh2[i] = [None] + sh[i][1:]
+        return sh2
+    if kind == "paren-lead-pad":
+        def f(n):
+            if is_node(n, {"cvg"}):
+                return n[:2] + [None] + n[3:]
+            if is_node(n, {"cvp"}) or is_node(n, {"tig"}):
+                return [n[0], None] + n[2:]
+            return n
+        return map_tree(sh, f)
+    if kind == "mul-real":
+        return map_tree(sh, lambda n: ["mul", ["r", "n", "2", None, None]] if is_node(n, {"mul"}) else n)
+    if kind == "real":
+        return map_tree(sh, lambda n: n[:3] + ["0", n[4]] if (is_node(n, {"r"}) and len(n) == 5 and n[4] is not None and n[4][0] == "f" and n[3] == "") else n)
+    if kind == "mat-plain-after-lib":
+        zs = sorted(sh[4], key=lambda z: z[1])
+        zs = [z[:5] + [z[5] or ["sp", 0]] for z in zs]
+        if not sh[5]:
+            zs[-1] = zs[-1][:5] + [None]
+        return sh[:4] + [zs] + sh[5:]
+    return None
+
+
+def simplify_pads(sh):
+    return map_tree(sh, lambda n: ["sp", 0] if is_node(n, PAD_KINDS) and n[0] != "ld" else (None if is_node(n, {"ld"}) else n))
